@@ -432,7 +432,7 @@ def anchored_value_cond(r, child, mode, depth):
 
 
 def guided_path(r, doc_, max_len=4, miss=18, mode="typed", labels=False, prim_only=False,
-                want_str=False, min_len=0, cond_depth=2):
+                want_str=False, min_len=0, cond_depth=2, end_str=False):
     """A path drawn by walking the document, so that selections are non-empty most of
     the time; with probability `miss` % per part a blind part is injected."""
     parts = []
@@ -456,6 +456,10 @@ def guided_path(r, doc_, max_len=4, miss=18, mode="typed", labels=False, prim_on
         if want_str:
             pref = [k for k, v in items if isinstance(v, str) or (isinstance(v, (list, dict)) and v)]
             if pref and r.pct() < 85:
+                ks_pick = pref
+        if end_str and part_i == n - 1:
+            pref = [k for k, v in items if isinstance(v, str)]
+            if pref and r.pct() < 90:
                 ks_pick = pref
         k = r.choice(ks_pick)
         is_map = isinstance(node, dict)
@@ -520,7 +524,14 @@ def rule_for(r, doc_, mode="typed", cast_p=0, max_len=4, cond_depth=2, with_doc=
     cast = None
     if cast_p and r.pct() < cast_p:
         cast = r.choice(["bool", "int"])
-    p = guided_path(r, doc_, max_len=max_len, mode=mode, want_str=bool(cast) or want_str, prim_only=prim_only)
+    p = guided_path(r, doc_, max_len=max_len, mode=mode, want_str=bool(cast) or want_str, prim_only=prim_only,
+                    min_len=1 if cast else 0, end_str=bool(cast), miss=8 if cast else 18)
+    if cast and r.pct() < 80:
+        # cast-directed: declare the cast that some selected string can take
+        strs_ = [v for v, _ in model.ref_select(p.parts, doc_) if isinstance(v, str)]
+        kinds_ = [k for k in ("bool", "int") if any(model.cast_value(k, v)[0] for v in strs_)]
+        if kinds_:
+            cast = r.choice(kinds_)
     c = tree(r, ("value",), mode, cond_depth, meaningful=meaningful, jsonable=jsonable)
     d = doc_block(r) if with_doc else None
     return RuleT(p, c, cast, d)
